@@ -7,6 +7,6 @@ Definition time_method_names : list string := ["mean"; "covariance"; "mean_covar
 Definition time_methods : list (string * bool) := [("mean", true); ("covariance", true); ("mean_covariance", true); ("uncertainty", true); ("time_derivative", true); ("gradient", true); ("hessian", true); ("hessian_log_determinant", true)].
 Definition wrapper_conflict_exn : exn := ValueError.
 Definition wrapper_in_axes : Z := 0%Z.
-Definition wrapper_out_axes : Z := 0%Z.
+Definition wrapper_out_axes : Z := 1%Z.
 Definition wrapper_conflict_guarded : bool := true.
 Definition wrapper_passes_time_keyword : bool := true.
